@@ -58,8 +58,7 @@ var specs = []fspec{
 	{"replace", "replace", allT, false, false, true, false, false},
 	{"sort", "sort", allT, false, false, false, false, true},
 	{"stable-sort", "sort", allT, false, false, false, false, true},
-	// no bit-vectors: every order predicate is numeric and slip's numeric functions reject bits
-	{"merge", "merge", []string{"list", "vector", "string", "octets"}, false, false, false, false, true},
+	{"merge", "merge", allT, false, false, false, false, true},
 	{"union", "set", listT, false, false, false, true, true},
 	{"nunion", "set", listT, false, false, false, true, true},
 	{"intersection", "set", listT, false, false, false, true, true},
@@ -225,7 +224,7 @@ func chooseKey(r *rand.Rand, flav string, want bool) (string, string) {
 	if !want {
 		return "", flav
 	}
-	names := namesFor(keys, func(_ string, k fn1) bool { return domOK(k.dom, flav) })
+	names := namesFor(keys, func(n string, k fn1) bool { return okFor(n, k.dom, flav) })
 	name := pickStr(r, names)
 	if out := keys[name].out; out != "" {
 		return name, out
@@ -234,19 +233,16 @@ func chooseKey(r *rand.Rand, flav string, want bool) (string, string) {
 }
 
 func chooseTest(r *rand.Rand, flav string, want, equivOnly bool) string {
-	if !want || flav == "bit" {
-		// equal, eql and = signal a type-error for a bit in slip (an equality /
-		// numeric-tower defect, not this property's concern): bits are only
-		// compared by the default test
+	if !want {
 		return ""
 	}
-	names := namesFor(tests, func(_ string, t fn2) bool { return domOK(t.dom, flav) && (t.equiv || !equivOnly) })
+	names := namesFor(tests, func(n string, t fn2) bool { return okFor(n, t.dom, flav) && (t.equiv || !equivOnly) })
 	return pickStr(r, names)
 }
 
 func choosePred(r *rand.Rand, flav string) string {
 	names := namesFor(preds, func(n string, p pred1) bool {
-		return domOK(p.dom, flav) && (p.dom != "any" || n != "consp")
+		return okFor(n, p.dom, flav) && (p.dom != "any" || n != "consp")
 	})
 	// the constant predicates are boundary cases, keep them rare
 	for {
@@ -312,8 +308,8 @@ func setBounds(r *rand.Rand, n, knob int, start, end **int, endNil *bool) {
 }
 
 // avoidAtLength rewrites, in three cases out of four, explicit bounds equal to
-// the length into equivalent or interior ones (fill, replace and mismatch
-// reject them: listed findings).
+// the length into equivalent or interior ones (fill rejects them: a listed
+// finding pinned by slip's own tests).
 func avoidAtLength(r *rand.Rand, n, knob int, start, end **int) {
 	if knob != -1 || r.IntN(4) == 0 {
 		return
@@ -576,7 +572,7 @@ func genCase(r *rand.Rand, sp *fspec, typ string, k knobs) Case {
 		setBounds(r, len(idx2), k.bounds2, &c.Start2, &c.End2, nil)
 		setFromEnd(r, &c, k.fromEnd)
 		// listed findings, kept in a minority: :from-end of search and mismatch,
-		// search between a string and a non-string, mismatch bounds equal to the length
+		// search between a string and a non-string
 		if k.fromEnd == -1 && c.FromEnd == "t" && r.IntN(4) != 0 {
 			c.FromEnd = ""
 		}
@@ -590,10 +586,6 @@ func genCase(r *rand.Rand, sp *fspec, typ string, k knobs) Case {
 			} else {
 				c.T2 = c.T1
 			}
-		}
-		if sp.name == "mismatch" {
-			avoidAtLength(r, len(idx1), k.bounds, &c.Start, &c.End)
-			avoidAtLength(r, len(idx2), k.bounds2, &c.Start2, &c.End2)
 		}
 	case "subseq":
 		flav := chooseFlavour(r, typ)
@@ -636,8 +628,6 @@ func genCase(r *rand.Rand, sp *fspec, typ string, k knobs) Case {
 		}
 		setBounds(r, len(idx), k.bounds, &c.Start, &c.End, nil)
 		setBounds(r, len(idx2), k.bounds2, &c.Start2, &c.End2, nil)
-		avoidAtLength(r, len(idx), k.bounds, &c.Start, &c.End)
-		avoidAtLength(r, len(idx2), k.bounds2, &c.Start2, &c.End2)
 	case "sort":
 		flav := chooseFlavour(r, typ)
 		if flav == "symn" {
@@ -657,7 +647,7 @@ func genCase(r *rand.Rand, sp *fspec, typ string, k knobs) Case {
 			c.Key, c.Pred = "", ""
 			break
 		}
-		names := namesFor(orders, func(_ string, o fn2) bool { return domOK(o.dom, flav2) })
+		names := namesFor(orders, func(n string, o fn2) bool { return okFor(n, o.dom, flav2) })
 		c.Pred = pickStr(r, names)
 		if k.test == 0 || (k.test < 0 && r.IntN(8) == 0) {
 			c.Pred = "" // documented dialect: default comparator
@@ -683,7 +673,7 @@ func genCase(r *rand.Rand, sp *fspec, typ string, k knobs) Case {
 		if c.Key == "a2b" {
 			c.Key = ""
 		}
-		names := namesFor(orders, func(_ string, o fn2) bool { return domOK(o.dom, flav2) })
+		names := namesFor(orders, func(n string, o fn2) bool { return okFor(n, o.dom, flav2) })
 		c.Pred = pickStr(r, names)
 		c.S1 = sortedBy(elements(flav, seqIdx(), 0), c.Key, c.Pred)
 		c.S2 = sortedBy(elements(flav, second(), 20), c.Key, c.Pred)
@@ -733,7 +723,7 @@ func genCase(r *rand.Rand, sp *fspec, typ string, k knobs) Case {
 			flav = "int"
 		}
 		c.S1 = elements(flav, seqIdx(), 0)
-		if yes(r, k.key) && flav != "bit" { // knob reused: two sequences
+		if yes(r, k.key) { // knob reused: two sequences
 			c.T2 = otherType(r, flav)
 			if c.T2 == "string" && flav != "char" {
 				c.T2 = "vector"
@@ -782,7 +772,7 @@ func genCase(r *rand.Rand, sp *fspec, typ string, k knobs) Case {
 			}
 			c.S2 = elements(flav, second(), 20)
 		}
-		names := namesFor(mapfns, func(_ string, m mapfn) bool { return m.arity == arity && domOK(m.dom, flav) })
+		names := namesFor(mapfns, func(n string, m mapfn) bool { return m.arity == arity && okFor(n, m.dom, flav) })
 		c.Pred = pickStr(r, names)
 		if sp.name == "map" {
 			out := mapfns[c.Pred].out
@@ -813,7 +803,7 @@ func genCase(r *rand.Rand, sp *fspec, typ string, k knobs) Case {
 			c.T3 = "list"
 			c.S3 = elements(flav, randIdx(r, k.length(r)), 40)
 		}
-		names := namesFor(mapfns, func(_ string, m mapfn) bool { return m.arity == arity && domOK(m.dom, flav) })
+		names := namesFor(mapfns, func(n string, m mapfn) bool { return m.arity == arity && okFor(n, m.dom, flav) })
 		c.Pred = pickStr(r, names)
 		return c
 	case "reduce":
@@ -823,7 +813,7 @@ func genCase(r *rand.Rand, sp *fspec, typ string, k knobs) Case {
 		var flav2 string
 		c.Key, flav2 = chooseKey(r, flav, yes(r, k.key))
 		fns := []string{"list2", "list2", "cons"}
-		if flav2 == "int" {
+		if flav2 == "int" || flav2 == "bit" {
 			fns = append(fns, "+", "-")
 		}
 		c.Pred = pickStr(r, fns)
